@@ -64,6 +64,24 @@ class Obligation:
         self.meta = meta
         self.expect_sat = meta.get('canary', False)
 
+    def instances(self):
+        """sound helper hypotheses: instances of the universally quantified hypotheses at the ground terms of the goal
+        (two rounds) and of definitional axioms at their ground applications (mini E-matching)"""
+        src = getattr(self, 'inst_src', None)
+        if src is None:
+            return []
+        if getattr(self, '_inst', None) is None:
+            inst = instantiate_at_goal(self.hyps, src)
+            inst2 = instantiate_at_goal(self.hyps, src + inst, cap=300) if inst else []
+            qf = [h for h in self.hyps if not (z3.is_quantifier(h) and h.is_forall())]
+            inst3 = instantiate_by_pattern(self.hyps, src + inst + inst2 + qf)
+            self._inst = inst + inst2 + inst3
+        return self._inst
+
+    def relevant_hyps(self, depth=2):
+        """cone of influence of the goal (dropping hypotheses is sound for a proof attempt)"""
+        return relevance_filter(self.hyps, self.goal, depth)
+
     def __repr__(self):
         return f"<obl {self.id}>"
 
@@ -92,6 +110,69 @@ def _has_quantifier(t):
     return r
 
 
+_sym_cache = {}
+
+
+def symbols_of(t):
+    """names of the uninterpreted constants / functions of a term (datatype accessors and theory symbols excluded)"""
+    i = t.get_id()
+    if i in _sym_cache:
+        return _sym_cache[i]
+    out = set()
+    stack = [t]
+    seen = set()
+    while stack:
+        x = stack.pop()
+        if x.get_id() in seen:
+            continue
+        seen.add(x.get_id())
+        if z3.is_quantifier(x):
+            stack.append(x.body())
+        elif z3.is_app(x):
+            d = x.decl()
+            if d.kind() == z3.Z3_OP_UNINTERPRETED:
+                out.add(d.name())
+            stack.extend(x.children())
+    _sym_cache[i] = out
+    return out
+
+
+COMMON_SYMBOLS = {'M', 'L', 'dflt_Val', 'none_val'}
+
+
+def relevance_filter(hyps, goal, depth=2):
+    S = set(symbols_of(goal)) - COMMON_SYMBOLS
+    keep = [False] * len(hyps)
+    hs = [symbols_of(h) - COMMON_SYMBOLS for h in hyps]
+    for _ in range(depth):
+        new = set()
+        for idx, sy in enumerate(hs):
+            if not keep[idx] and (sy & S or not sy):
+                keep[idx] = True
+                new |= sy
+        if not new - S:
+            break
+        S |= new
+    return [h for h, k in zip(hyps, keep) if k]
+
+
+def skolemize_hyp(h):
+    """an existential hypothesis is replaced by its body at fresh constants (sound for hypotheses); conjunctions are split"""
+    out = []
+
+    def rec(x):
+        if z3.is_quantifier(x) and x.is_exists():
+            vs = [z3.Const(fresh_name('ex_' + x.var_name(i)), x.var_sort(i)) for i in range(x.num_vars())]
+            rec(z3.substitute_vars(x.body(), *reversed(vs)))
+        elif z3.is_and(x):
+            for c in x.children():
+                rec(c)
+        else:
+            out.append(x)
+    rec(h)
+    return out
+
+
 def split_goal(goal, limit=48):
     """skolemise universal goals and split conjunctions: one small query per conjunct"""
     out = []
@@ -108,7 +189,7 @@ def split_goal(goal, limit=48):
             for c in g.children():
                 rec(c, extra)
         elif z3.is_implies(g):
-            rec(g.arg(1), extra + [g.arg(0)])
+            rec(g.arg(1), extra + skolemize_hyp(g.arg(0)))
         elif z3.is_app(g) and g.decl().kind() == z3.Z3_OP_ITE and g.sort() == z3.BoolSort():
             rec(g.arg(1), extra + [g.arg(0)])
             rec(g.arg(2), extra + [z3.Not(g.arg(0))])
@@ -139,6 +220,72 @@ def ground_terms(formulas, limit=10):
         if len(lst) < limit:
             lst.append(t)
     return by_sort
+
+
+def _apps_of(formulas, names):
+    """ground applications (outside quantifiers) of the uninterpreted functions with the given names"""
+    out = {}
+    seen = set()
+    stack = list(formulas)
+    while stack:
+        t = stack.pop()
+        if t.get_id() in seen or z3.is_quantifier(t):
+            continue
+        seen.add(t.get_id())
+        if z3.is_app(t):
+            if t.num_args() > 0 and t.decl().kind() == z3.Z3_OP_UNINTERPRETED and t.decl().name() in names:
+                out.setdefault(t.decl().name(), {})[t.get_id()] = t
+            stack.extend(t.children())
+    return out
+
+
+def _simple_pattern(h):
+    """(function name, arg positions -> bound var index) if the quantifier has a single pattern f(x_i, x_j, ...)
+    whose arguments are exactly its bound variables, each once"""
+    if h.num_patterns() != 1:
+        return None
+    p = h.pattern(0)
+    if p.num_args() != 1:
+        return None
+    t = p.arg(0)
+    if not z3.is_app(t) or t.decl().kind() != z3.Z3_OP_UNINTERPRETED or t.num_args() != h.num_vars():
+        return None
+    idxs = []
+    for a in t.children():
+        if not z3.is_var(a):
+            return None
+        idxs.append(z3.get_var_index(a))
+    if sorted(idxs) != list(range(h.num_vars())):
+        return None
+    return t.decl().name(), idxs
+
+
+def instantiate_by_pattern(hyps, sources, cap=120):
+    """mini E-matching for definitional axioms `forall xs. f(xs) => ...` / `f(xs) == ...`: one instance per ground f-term"""
+    pats = []
+    for h in hyps:
+        if z3.is_quantifier(h) and h.is_forall():
+            sp = _simple_pattern(h)
+            if sp is not None:
+                pats.append((h, sp))
+    if not pats:
+        return []
+    apps = _apps_of(sources, {sp[0] for _, sp in pats})
+    out = []
+    for h, (fname, idxs) in pats:
+        for t in list(apps.get(fname, {}).values())[:40]:
+            if len(out) >= cap:
+                return out
+            # de Bruijn: var index i refers to bound variable number (num_vars - 1 - i)
+            nv = h.num_vars()
+            subst = [None] * nv
+            for argpos, vi in enumerate(idxs):
+                subst[vi] = t.arg(argpos)
+            try:
+                out.append(z3.substitute_vars(h.body(), *subst))
+            except z3.Z3Exception:
+                pass
+    return out
 
 
 def instantiate_at_goal(hyps, goal_parts, cap=400):
@@ -291,6 +438,11 @@ class Run:
                 continue
             if isinstance(f, bool):
                 f = z3.BoolVal(f)
+            if z3.is_and(f) and not self.qstack:
+                self.assume(*f.children())      # one hypothesis per conjunct (instantiation works on top-level foralls)
+                continue
+            if z3.is_true(f):
+                continue
             if self.qstack:
                 f = self._close(f)
             self.pc.append(f)
@@ -332,7 +484,10 @@ class Run:
             d = ct
             ex.decisions.append([d, ct and cf])
         ex.pos += 1
-        self.pc.append(cond if d else z3.Not(cond))
+        if d:
+            self.pc += skolemize_hyp(cond)      # an existential branch condition is kept at fresh constants
+        else:
+            self.pc.append(z3.Not(cond))
         return d
 
     def choose_free(self, label):
@@ -402,8 +557,12 @@ class Run:
             m = dict(meta)
             m['piece'] = i
             m['whole_goal'] = goal
-            inst = instantiate_at_goal(self.pc + extra, [g] + extra)
-            self.obligations.append(Obligation(oid, self.pc + extra + inst, g, m))
+            src = [g] + extra
+            if z3.is_false(g):
+                src = src + [h for h in self.pc[-4:] if not _has_quantifier(h)]   # the branch conditions that led here
+            ob = Obligation(oid, self.pc + extra, g, m)
+            ob.inst_src = src           # instances of the quantified hypotheses are computed lazily (in the solver worker)
+            self.obligations.append(ob)
 
     # ---- statements --------------------------------------------------------------------------------
     def exec_block(self, stmts):
@@ -541,6 +700,7 @@ class Run:
         ghosts = {}
         lc = LoopCtx(self, it, entry_env, entry_self, ghosts)
         lc.entry_counters = dict(self.counters)
+        self.cur_loop = lc
         # ghost initial values, iteration ghost at "nothing visited"
         if it.kind == 'seq':
             lc.i = z3.IntVal(0)
@@ -1068,9 +1228,16 @@ class Run:
                 n = bt.as_long()
                 if n == 0:
                     return SNum(1)
+                if n == 2 and not self.opts.float_mode:
+                    from . import pylib
+                    return pylib.square(self, a)
                 r = a.t
                 for _ in range(n - 1):
                     r = r * a.t
+                if n % 2 == 0 and not self.qstack:
+                    self.pc.append(r >= 0)      # an even power of a real is non-negative (ground fact about this term)
+                elif n % 2 == 0:
+                    self.assume(r >= 0)
                 return SNum(r, np_, fin)
             if z3.is_rational_value(bt) and bt.numerator_as_long() == 1 and bt.denominator_as_long() == 2:
                 # x ** 0.5 : the non-negative root for x >= 0; a negative base gives a complex number
@@ -1356,6 +1523,12 @@ class Run:
         else:
             old = snapshot(recv) if recv is not None else None
         a0 = {k: (snapshot(v) if isinstance(v, SV) else v) for k, v in a.items()}
+        if self.fspec is not None:
+            for pref, cutf in self.fspec.cuts.items():
+                if fs.key.startswith(pref):
+                    g = _conj(self.clause('cut:' + pref, lambda _: cutf(self, NS(a0), recv), None))
+                    self.oblige(f"{self.fspec.key}/cut:{pref}", g, kind='cut', clause='cut:' + pref, function=self.fspec.key)
+                    self.assume(g)
         cpre = Ctx(old=ObjView(old) if old is not None else None, new=None, a=NS(a0), run=self)
         for cname, f in fs.requires.items():
             self.oblige(f"{self.fspec.key}/call:{fs.key}/pre/{cname}", self.clause(cname, f, cpre), kind='call_pre', clause=cname,
